@@ -220,6 +220,75 @@ func c15Convert(c *Ctx) {
 				}
 			}
 		})
+		// the helper form: count, err := optionalIntArg(args, 0, 1) - a function of the package that returns
+		// Atoi(args[pos]) under pos < len(args) and its default argument otherwise
+		defaults := map[int]int64{}
+		EachInstr(psn, func(in ssa.Instruction) {
+			cl, ok := in.(*ssa.Call)
+			if !ok || cl.Call.StaticCallee() == nil || PkgOf(cl.Call.StaticCallee()) != PkgOf(psn) || len(cl.Call.StaticCallee().Blocks) == 0 {
+				return
+			}
+			h := cl.Call.StaticCallee()
+			// inside the helper: Atoi(<slice param>[<pos param>]) guarded by pos < len(slice)
+			posIdx, guard := -1, false
+			EachInstr(h, func(i2 ssa.Instruction) {
+				at, ok := i2.(*ssa.Call)
+				if !ok || !MatchCC(&at.Call, Spec{"strconv", "", "Atoi"}) {
+					return
+				}
+				u, ok := at.Call.Args[0].(*ssa.UnOp)
+				if !ok {
+					return
+				}
+				ia, ok := u.X.(*ssa.IndexAddr)
+				if !ok {
+					return
+				}
+				for i, p := range h.Params {
+					if ssa.Value(p) == ia.Index {
+						posIdx = i
+					}
+				}
+				for _, f := range CmpFactsAt(at) {
+					f = f.Canon()
+					if f.Op == token.LSS && f.X == ia.Index {
+						if lc, ok := f.Y.(*ssa.Call); ok && IsBuiltinCall(lc, "len") {
+							guard = true
+						}
+					}
+				}
+			})
+			if posIdx < 0 || posIdx >= len(cl.Call.Args) {
+				return
+			}
+			k, isK := ConstInt(cl.Call.Args[posIdx])
+			if !isK {
+				return
+			}
+			// the default: a parameter the helper returns on a nil-error path, passed as a constant here
+			var def int64 = -1
+			EachInstr(h, func(i2 ssa.Instruction) {
+				if ret, ok := i2.(*ssa.Return); ok && len(ret.Results) == 2 && IsNilConst(ret.Results[1]) {
+					for i, p := range h.Params {
+						if ssa.Value(p) == ret.Results[0] && i < len(cl.Call.Args) {
+							if d, isD := ConstInt(cl.Call.Args[i]); isD {
+								def = d
+							}
+						}
+					}
+				}
+			})
+			for _, b := range psn.Blocks {
+				if r, ok := b.Instrs[len(b.Instrs)-1].(*ssa.Return); ok && len(r.Results) == 4 {
+					for i := 1; i <= 2; i++ {
+						if DerivesAny(r.Results[i], false, IsResultOf(cl, 0)) {
+							byResult[i] = res{k, guard}
+							defaults[i] = def
+						}
+					}
+				}
+			}
+		})
 		ok := byResult[1] == res{0, true} && byResult[2] == res{1, true}
 		c.Check(ok, "O15.3", fk(psn)+":count-then-sleep", psn.Pos(), fmt.Sprintf("count = Atoi(args[0]) under len(args) > 0, sleep = Atoi(args[1]) under len(args) > 1; found %v", byResult))
 		// defaults: count 1, sleep 0
@@ -238,6 +307,11 @@ func c15Convert(c *Ctx) {
 					}
 				}
 				okDef = hasOne && hasZero
+			}
+		}
+		if d1, has1 := defaults[1]; has1 {
+			if d2, has2 := defaults[2]; has2 {
+				okDef = d1 == 1 && d2 == 0
 			}
 		}
 		c.Check(okDef, "O15.3", fk(psn)+":defaults", psn.Pos(), "without arguments the count is 1 and the pause 0")
